@@ -582,6 +582,8 @@ def show_pattern(p):
     o = p["op"]
 
     def pos(x):
+        if "qt" in x:
+            return "<< %s >>" % " ".join(pos(y) for y in x["qt"])
         return "?" + x["var"] if "var" in x else "_:" + x["bn"] if "bn" in x else show_term(x["term"])
 
     def ex(e):
